@@ -594,9 +594,9 @@ public:
 
     // Zero initialized, if ever changed to '1' that would mean the syscall is not
     // available and we must use `shm_open()` and `shm_unlink()` (or regular `open()`).
-    static volatile uint32_t memfd_create_not_supported;
+    static std::atomic<uint32_t> memfd_create_not_supported;
 
-    if (!memfd_create_not_supported) {
+    if (!memfd_create_not_supported.load(std::memory_order_relaxed)) {
       _fd = (int)syscall(__NR_memfd_create, "vmem", MFD_CLOEXEC | get_mfd_exec_flag());
       if (ASMJIT_LIKELY(_fd >= 0)) {
         return Error::kOk;
@@ -604,7 +604,7 @@ public:
 
       int e = errno;
       if (e == ENOSYS) {
-        memfd_create_not_supported = 1;
+        memfd_create_not_supported.store(1u, std::memory_order_relaxed);
       }
       else {
         return make_error(asmjit_error_from_errno(e));
